@@ -1,6 +1,6 @@
 //! Reference codecs (written from the specifications, sharing no code or
 //! types with the aquatic protocol crates) and helpers for the codec engines.
-pub mod refudp;
+pub use vcore::refudp;
 
 pub fn panic_text(p: &(dyn std::any::Any + Send)) -> String {
     if let Some(s) = p.downcast_ref::<&str>() {
